@@ -417,6 +417,8 @@ def solve_stages(stages, rlimit, timeout_ms, use_cvc5, cex_terms, deadline=None)
                     cand = mm
 
     z3_round(0.05)
+    if verdict == "unknown":
+        z3_round(0.2)  # many array/quantifier obligations need a little more than the first slice; cheaper than a cvc5 start
     if verdict == "unknown" and use_cvc5:
         cvc5_round(8)
     if verdict == "unknown":
